@@ -9,13 +9,13 @@
    paragraph rendering is free of empty lines (proved for encoded formatted values only; given
    that, the rendering is proved to split back into exactly as many paragraphs), and the
    objects built from DEP-5 grammar documents meet the renderability conditions of the document
-   theorem, and render . parse . render = render; decided by co-execution and by the executable
-   statement.  Proved: from_dict(to_dict(p)).to_dict() = to_dict(p) given the per-field stability
+   theorem; decided by co-execution and by the executable statement.  Proved: from_dict(to_dict(p)).to_dict() = to_dict(p) given the per-field stability
    above, and - for objects meeting the stated conditions - that the rendering parses back to an
-   object with the same paragraph types and dictionary forms). *)
+   object with the same paragraph types and dictionary forms, whose rendering is the same text
+   again: render . parse . render = render). *)
 From Coq Require Import String.
 From Coq Require Import NArith List Bool.
-From DI Require Import Result PyStr PyStrFacts Codec CodecFacts Deb822 Debcon Copyright Grammar822 Grammar822Facts WordFacts ConserveFacts RenderFacts FromDictFacts RoundTripFacts.
+From DI Require Import Result PyStr PyStrFacts Codec CodecFacts Deb822 Debcon Copyright Grammar822 Grammar822Facts WordFacts ConserveFacts RenderFacts FromDictFacts RoundTripFacts FixpointFacts SpecCheck.
 Import ListNotations.
 Open Scope N_scope.
 
@@ -96,27 +96,78 @@ Proof. exact from_dict_to_dict. Qed.
 Print Assumptions C13_from_dict_reproduces_to_dict.
 
 (* whole documents: the rendering of an object parses back to an object with the same paragraph
-   types and the same dictionary forms.  spec_ok (Proofs/RoundTripFacts.v) bundles what the proof
-   needs of each paragraph: it is typed header, files or license; its extra names are distinct,
-   unknown to its type and free of hyphens; every non-blank value of its dictionary form is
+   types and the same dictionary forms, and rendering THAT object gives the same text again
+   (render . parse . render = render).  spec_good (Proofs/FixpointFacts.v, RoundTripFacts.v) bundles
+   what the proof needs of each paragraph: it is typed header, files or license; its extra names are
+   distinct, unknown to its type and free of hyphens; every non-blank value of its dictionary form is
    renderable (a trimmed non-empty first line, then indented non-blank continuation lines without
-   trailing blanks, no carriage return), a blank value is empty; the rendered names parse back to
-   the keys; each typed value is stable under parse-after-render (theorems above); the rendering
-   is the general one (the paragraph is not empty) and its names select its own type.  NOT proved:
-   that every object built from a document of the DEP-5 grammar satisfies spec_ok (decided by
-   co-execution and by the executable statement on generated documents). *)
-Theorem C13_render_parse_same_dictionary_form : forall specs, specs <> [] -> Forall spec_ok specs ->
+   trailing blanks, no carriage return), a blank value is empty; there is at least one such value;
+   the rendered names parse back to the keys; each typed value is stable under parse-after-render
+   (theorems above); its rendered names select its own type.  NOT proved: that every object built from
+   a document of the DEP-5 grammar satisfies spec_good; spec_good is decided by a computable test
+   (below) which the model runs on every generated document. *)
+Theorem C13_render_parse_render : forall specs, specs <> [] -> Forall spec_good specs ->
   exists ps', from_text (doc_dumps (map build specs)) = Ok ps' /\
-    Forall2 (fun p p' => p_type p' = p_type p /\ para_to_dict p' = para_to_dict p) (map build specs) ps'.
-Proof. exact doc_roundtrip. Qed.
-Print Assumptions C13_render_parse_same_dictionary_form.
+    Forall2 (fun p p' => p_type p' = p_type p /\ para_to_dict p' = para_to_dict p) (map build specs) ps' /\
+    doc_dumps ps' = doc_dumps (map build specs).
+Proof. exact doc_roundtrip_fixpoint. Qed.
+Print Assumptions C13_render_parse_render.
+
+(* the hypothesis as a computable test.  specs_of_text reads off a text the paragraphs as the builder
+   makes them; spec_goodb decides spec_good.  For EVERY text on which the test answers true: the
+   object is the one built from those paragraphs, its rendering parses back to an object with the
+   same types and dictionary forms, and that object renders to the same text.  The extracted model
+   evaluates the test on every generated DEP-5 document on every run (evidence: stream
+   model:theorem-hypothesis-on-generated-documents). *)
+Theorem C13_text_render_fixpoint : forall t specs,
+  specs_of_text t = Ok specs -> specs <> [] -> forallb spec_goodb specs = true ->
+  from_text t = Ok (map build specs) /\
+  exists ps', from_text (doc_dumps (map build specs)) = Ok ps' /\
+    Forall2 (fun p p' => p_type p' = p_type p /\ para_to_dict p' = para_to_dict p) (map build specs) ps' /\
+    doc_dumps ps' = doc_dumps (map build specs).
+Proof. exact text_render_fixpoint. Qed.
+Print Assumptions C13_text_render_fixpoint.
+
+Theorem C13_test_is_sound : forall s, spec_goodb s = true -> spec_good s.
+Proof. exact spec_goodb_ok. Qed.
+Print Assumptions C13_test_is_sound.
+
+Example C13_test_on_a_document :
+  c13_test (lit "Format: https://www.debian.org/doc/packaging-manuals/copyright-format/1.0/
+Upstream-Name: foo
+X-Note: hello
+ world
+
+Files: * src/a
+Copyright: 2019 Jane Doe
+ 2020 J. Roe
+License: GPL-2+
+ This is free
+ .
+ software.
+Comment: a comment
+ on two lines
+
+License: MIT
+ text of the
+  verbatim
+ license
+") = Ok true.
+Proof. vm_compute. reflexivity. Qed.
+
+(* a paragraph with a value to render is rendered in the general way (never as the bare "Files: " or
+   "License: " of an empty paragraph) *)
+Theorem C13_general_rendering : forall t K E L, live_items t K E <> [] ->
+  para_dumps (build_para t K E L) = base_dumps (build_para t K E L).
+Proof. exact para_dumps_base. Qed.
+Print Assumptions C13_general_rendering.
 
 (* the hypotheses are satisfiable *)
 Definition C13_ex_spec : spec := mkSpec PLicense [(lit "license", lit "MIT")] [] [].
-Example C13_ex_spec_ok : spec_ok C13_ex_spec.
+Example C13_ex_spec_good : spec_good C13_ex_spec.
 Proof.
   assert (Elive : live_items PLicense [(lit "license", lit "MIT")] [] = [(lit "license", lit "MIT")]) by (vm_compute; reflexivity).
-  unfold spec_ok, C13_ex_spec. cbn [s_type s_known s_extra s_lines]. split; [|split; [discriminate|split; [vm_compute; reflexivity|]]].
+  unfold spec_good, C13_ex_spec. cbn [s_type s_known s_extra s_lines]. split; [|split; [discriminate|]].
   - constructor.
     + split; [constructor|intros k []].
     + constructor.
@@ -131,6 +182,12 @@ Proof.
     + repeat (constructor; [vm_compute; reflexivity|]). constructor.
   - intros n. unfold srendered. cbn [s_type s_known s_extra]. unfold rendered. rewrite Elive. reflexivity.
 Qed.
+
+Example C13_ex_fixpoint :
+  rmap doc_dumps (from_text (doc_dumps [build C13_ex_spec])) = Ok (doc_dumps [build C13_ex_spec]) /\
+  doc_dumps [build C13_ex_spec] = lit "License: MIT
+".
+Proof. vm_compute. split; reflexivity. Qed.
 
 (* a rendering whose paragraph renderings hold no empty line (and start and end with a character
    that is not a line feed) splits back into exactly those renderings: the same number of
